@@ -38,7 +38,9 @@ CLAIM = dict(
     "model is tied EXACTLY to the code on integer / dyadic payloads (RotationCorrection with exactly representable matrices set on "
     "the object). Only observed (not proved): purity / neutrality of the remaining corrections (curvature: scipy map_coordinates, "
     "colour, illumination, fitted affine / generalised perspective, float32 and general cv2.warpAffine translations), searched by "
-    "the oracle over configurations x input kinds x overwrite x shapes x dtypes.",
+    "the oracle over configurations x input kinds x overwrite x shapes x dtypes (incl. a cropping CurvatureCorrection, the only "
+    "configuration that declares a metadata update, with the INPUT's metadata compared against a deep snapshot, and transformations "
+    "expressed in physical coordinates - direct, and fitted with isometry - on non-dyadic voxel sizes).",
     note="cv2.warpAffine is exact for whole-pixel translations and skimage img_as_* follow the modelled rules: contracts tied by "
     "correspondence, not proved. RotationCorrection built from an ANGLE of pi/2 carries float noise (cos = 6e-17) on rounding "
     "breakpoints, so the quarter-turn theorems are tied through exact matrices. The active ColorCorrection is compared at 1e-3 "
@@ -354,8 +356,8 @@ def configs(d, rng):
     regs = []
 
     def reg(name, build, kinds=KINDS, dtypes=("float64", "uint8", "float32", "uint16", "int64"), neutral=False,
-            conv=None, dims=2, channels=(None, 3), min_extent=1, fixed_shape=None, tol=0.0, out_dtype=None):
-        regs.append(dict(out_dtype=out_dtype, name=name, build=build, kinds=kinds, dtypes=dtypes, neutral=neutral, conv=conv, dims=dims, tol=tol,
+            conv=None, dims=2, channels=(None, 3), min_extent=1, fixed_shape=None, tol=0.0, out_dtype=None, max_extent=7):
+        regs.append(dict(max_extent=max_extent, out_dtype=out_dtype, name=name, build=build, kinds=kinds, dtypes=dtypes, neutral=neutral, conv=conv, dims=dims, tol=tol,
                          channels=channels, min_extent=min_extent, fixed_shape=fixed_shape))
 
     # --- type
@@ -399,6 +401,13 @@ def configs(d, rng):
     reg("curvature", lambda info: d.CurvatureCorrection(config={"bulge": dict(zero_b, horizontal_bulge=1e-3, vertical_bulge=-5e-4),
                                                                   "stretch": dict(zero_s, horizontal_stretch=1e-3)}),
         dtypes=cvd, min_extent=3)
+    # curvature with a crop: the only configuration that DECLARES a metadata update (dimensions / origin)
+    def curv_crop(info):
+        n0, n1 = info["shape"][:2]
+        return d.CurvatureCorrection(config={"crop": {"pts_src": [[1, 1], [1, n0 - 2], [n1 - 2, n0 - 2], [n1 - 2, 1]],
+                                                       "width": 1.5, "height": 0.75}})
+
+    reg("curvature(crop)", curv_crop, dtypes=("float64", "uint8", "float32"), min_extent=8, max_extent=14)
     # --- drift
     reg("drift(inactive)", lambda info: d.DriftCorrection(base=np.zeros(info["shape"][:2]), config={"active": False}), neutral=True)
     # --- transformation / affine / generalised perspective
@@ -425,6 +434,32 @@ def configs(d, rng):
             return cls(src, dst, d.make_voxel(pts), d.make_voxel(pts + np.array(shift, float)), fit_options={"tol": 1e-6, "maxiter": 200})
         return build
 
+    # transformations that operate in PHYSICAL coordinates, on voxel sizes that are not dyadic fractions
+    def transf_coord(t):
+        def build(info):
+            n0, n1 = info["shape"][:2]
+            src = d.Image(np.zeros((n0, n1)), dimensions=[0.1 * n0 * 0.7, 0.3 * n1 / 0.9]).coordinatesystem
+            T = d.AffineTransformation(2)
+            p = d.make_coordinate(np.zeros((2, 2)))
+            T.set_dtype(p, p)
+            T.set_parameters(np.array(t, dtype=float) * np.array([src.voxel_size["x"], -src.voxel_size["y"]]), 1.0, [0.0])
+            return d.TransformationCorrection(src, src, T)
+        return build
+
+    reg("transformation(neutral,coordinates)", transf_coord([0, 0]), neutral=True)
+    reg("transformation(shift,coordinates)", transf_coord([1, 1]))
+
+    def fitted_iso(shift):
+        def build(info):
+            n0, n1 = info["shape"][:2]
+            cs = d.Image(np.zeros((n0, n1)), dimensions=[0.1 * n0 * 0.7, 0.3 * n1 / 0.9]).coordinatesystem
+            pts = np.array([[0, 0], [n0 - 1, 0], [0, n1 - 1], [n0 - 1, n1 - 1]], dtype=float)
+            return d.AffineCorrection(cs, cs, d.make_voxel(pts), d.make_voxel(pts + np.array(shift, float)),
+                                      fit_options={"isometry": True, "tol": 1e-8, "maxiter": 300})
+        return build
+
+    reg("affine(fitted neutral,isometry)", fitted_iso([0, 0]), neutral=True, min_extent=3)
+    reg("affine(fitted shift,isometry)", fitted_iso([1, 0]), min_extent=3)
     reg("affine(fitted shift)", fitted(d.AffineCorrection, [1, 0]), min_extent=3)
     reg("affine(fitted neutral)", fitted(d.AffineCorrection, [0, 0]), neutral=True, min_extent=3)
     reg("generalized-perspective(fitted neutral)", fitted(d.GeneralizedPerspectiveCorrection, [0, 0]), neutral=True, min_extent=3)
@@ -470,7 +505,7 @@ def gen_raw(rng, cfg, kind, dtype, seed):
         scale = rng.choice([6, 8])
         space = (4 * scale, 6 * scale)
     else:
-        space = tuple(rng.randint(max(lo, 2), 7) if rng.random() < 0.85 else lo for _ in range(dims))
+        space = tuple(rng.randint(max(lo, 2), max(cfg.get("max_extent", 7), lo)) if rng.random() < 0.85 else lo for _ in range(dims))
     optical = kind in ("optical", "optical-series") or (kind == "array" and cfg["channels"] == (3,)) or (
         kind == "array" and 3 in cfg["channels"] and rng.random() < 0.4)
     series = kind in ("series", "optical-series")
